@@ -164,6 +164,10 @@ theorem set_same {α : Type} (l : List α) (i : Nat) (x : α) (h : l[i]? = some 
   · simp [hij]
 
 /-- replacing thread `i` by one with the same address and the same Set/Clear state does not change any view -/
+theorem set_getElem?' {α : Type} (l : List α) (i : Nat) (t t' : α) (h : l[i]? = some t) : (l.set i t')[i]? = some t' := by
+  have hlt : i < l.length := (List.getElem?_eq_some_iff.mp h).1
+  simp [hlt]
+
 theorem view_threads_same (a : Addr) (l : List HThread) (i : Nat) (t t' : HThread) (h : l[i]? = some t)
     (haddr : t'.addr = t.addr) (hth : t'.th = t.th ∨ t.addr ≠ a) :
     (l.set i t').map (fun t => if t.addr = a then t.th else idle) = l.map (fun t => if t.addr = a then t.th else idle) := by
@@ -532,5 +536,243 @@ theorem reg_stable_run (PP : List PtrAtom) (P : Op → Prog) (hs : SafePP PP = t
   induction s generalizing w with
   | nil => exact h
   | cons i s ih => exact ih _ (reg_stable_step PP P hs w i a id h)
+
+
+/-! ### a completing schedule exists from every initial world (non-vacuity of "runs to completion"): one thread at a
+time first obtains its pointer (within `PP.length` steps), then completes each call within three steps -/
+
+/-- a pointer program that always returns a word: its last operation is `LoadOrStore` -/
+def TermPP (PP : List PtrAtom) : Bool := PP.getLast? == some .loadOrStoreRet
+
+def todo : List HThread → Nat
+  | [] => 0
+  | t :: r => (if t.ptr.isSome then 0 else 1) + t.th.ops.length + todo r
+
+def HThread.cost (t : HThread) : Nat := (if t.ptr.isSome then 0 else 1) + t.th.ops.length
+
+theorem todo_set (l : List HThread) (i : Nat) (t t' : HThread) (h : l[i]? = some t) :
+    todo (l.set i t') + t.cost = todo l + t'.cost := by
+  induction l generalizing i with
+  | nil => simp at h
+  | cons x r ih =>
+    cases i with
+    | zero => simp at h; subst h; simp [todo, HThread.cost]; omega
+    | succ k =>
+      simp only [List.getElem?_cons_succ] at h
+      have := ih k h
+      simp only [List.set_cons_succ, todo]; omega
+
+theorem todo_zero_done (w : World) (h : todo w.threads = 0) : w.done = true := by
+  simp only [World.done, List.all_eq_true]
+  have key : ∀ l : List HThread, todo l = 0 → ∀ t ∈ l, (t.ptr.isSome && t.th.ops.isEmpty) = true := by
+    intro l
+    induction l with
+    | nil => intro _ t ht; cases ht
+    | cons x r ih =>
+      intro h0 t ht
+      simp only [todo] at h0
+      rcases List.mem_cons.mp ht with rfl | hr
+      · have h1 : (if t.ptr.isSome = true then 0 else 1) = 0 := by omega
+        have h2 : t.th.ops.length = 0 := by omega
+        have h3 : t.ptr.isSome = true := by
+          by_cases hq : t.ptr.isSome = true
+          · exact hq
+          · simp [hq] at h1
+        simp [h3, List.length_eq_zero_iff.mp h2]
+      · exact ih (by omega) t hr
+  exact key w.threads h
+
+theorem world_run_append (PP : List PtrAtom) (P : Op → Prog) (w : World) (a b : List Nat) :
+    w.run PP P (a ++ b) = (w.run PP P a).run PP P b := by
+  induction a generalizing w with
+  | nil => rfl
+  | cons i a ih => simp only [List.cons_append, World.run]; exact ih _
+
+theorem world_step_at (PP : List PtrAtom) (P : Op → Prog) (w : World) (i : Nat) (t : HThread) (h : w.threads[i]? = some t) :
+    w.step PP P i = ⟨(t.step PP P w.reg w.heap).1, (t.step PP P w.reg w.heap).2.1,
+      w.threads.set i (t.step PP P w.reg w.heap).2.2⟩ := by
+  simp [World.step, h]
+
+/-- one map operation of a thread that has no pointer yet -/
+theorem ptr_step (PP : List PtrAtom) (P : Op → Prog) (hs : SafePP PP = true) (reg : Reg) (heap : List Word) (t : HThread)
+    (hp : t.ptr = none) (hlt : t.ppc < PP.length) :
+    (t.step PP P reg heap).2.2.th = t.th ∧
+    ((t.step PP P reg heap).2.2.ptr.isSome = true ∨
+      ((t.step PP P reg heap).2.2.ptr = none ∧ (t.step PP P reg heap).2.2.ppc = t.ppc + 1 ∧ PP[t.ppc]? = some .loadRet)) := by
+  obtain ⟨addr, ptr, ppc, th⟩ := t
+  simp only at hp hlt
+  subst hp
+  simp only [HThread.step]
+  have hget : PP[ppc]? = some PP[ppc] := List.getElem?_eq_getElem hlt
+  rw [hget]
+  cases hat : PP[ppc] with
+  | storeRet => rw [hat] at hget; exact absurd hget (safe_no_store PP hs ppc)
+  | loadRet => cases List.lookup addr reg <;> simp
+  | loadOrStoreRet => cases List.lookup addr reg <;> simp
+
+/-- a thread scheduled alone obtains its pointer within `PP.length - ppc` steps; nothing else about the threads changes -/
+theorem solo_ptr (PP : List PtrAtom) (P : Op → Prog) (hs : SafePP PP = true) (ht : TermPP PP = true) (n : Nat) :
+    ∀ (w : World) (i : Nat) (t : HThread), w.threads[i]? = some t → t.ptr = none → t.ppc < PP.length →
+      PP.length - t.ppc = n →
+      ∃ k t', (w.run PP P (List.replicate k i)).threads = w.threads.set i t' ∧ t'.ptr.isSome = true ∧ t'.th = t.th := by
+  induction n with
+  | zero => intro w i t _ _ hlt hn; omega
+  | succ n ih =>
+    intro w i t hi hp hlt hn
+    obtain ⟨hth, hsome | ⟨hnone, hppc, hat⟩⟩ := ptr_step PP P hs w.reg w.heap t hp hlt
+    · exact ⟨1, (t.step PP P w.reg w.heap).2.2, by simp [World.run, world_step_at PP P w i t hi], hsome, hth⟩
+    · -- a Load that missed: the next operation exists because the program ends with LoadOrStore
+      have hlt' : t.ppc + 1 < PP.length := by
+        have hl : PP[PP.length - 1]? = some .loadOrStoreRet := by
+          have := ht
+          simp only [TermPP, beq_iff_eq] at this
+          rw [List.getLast?_eq_getElem?] at this
+          exact this
+        rcases Nat.lt_or_ge (t.ppc + 1) PP.length with h | h
+        · exact h
+        · have : t.ppc = PP.length - 1 := by omega
+          rw [this, hl] at hat
+          cases hat
+      have hi' : (w.step PP P i).threads[i]? = some (t.step PP P w.reg w.heap).2.2 := by
+        rw [world_step_at PP P w i t hi]
+        exact set_getElem?' _ _ _ _ hi
+      obtain ⟨k, t', hk, hs', hth'⟩ := ih (w.step PP P i) i _ hi' hnone (by rw [hppc]; exact hlt') (by rw [hppc]; omega)
+      refine ⟨k + 1, t', ?_, hs', by rw [hth', hth]⟩
+      simp only [List.replicate_succ, World.run]
+      rw [hk, world_step_at PP P w i t hi]
+      simp
+
+
+/-- one atomic access of the word by a thread that has its pointer, spelled out -/
+theorem flag_step_world (PP : List PtrAtom) (P : Op → Prog) (w : World) (i : Nat) (t : HThread) (id : Nat)
+    (hi : w.threads[i]? = some t) (hp : t.ptr = some id) (hid : id < w.heap.length) :
+    (w.step PP P i).threads = w.threads.set i { t with th := (t.th.step P (w.heap[id]?.getD 0)).2.1 } ∧
+    (w.step PP P i).heap[id]?.getD 0 = (t.th.step P (w.heap[id]?.getD 0)).1 ∧
+    (w.step PP P i).heap.length = w.heap.length := by
+  rw [world_step_at PP P w i t hi]
+  obtain ⟨addr, ptr, ppc, th⟩ := t
+  simp only at hp
+  subst hp
+  simp [HThread.step, hid]
+
+/-- a thread at the start of a call, scheduled alone, completes it in two steps (load, CAS) -/
+theorem solo_op0 (PP : List PtrAtom) (w : World) (i : Nat) (t : HThread) (id : Nat) (op : Op) (rest : List Op) (r0 : Word)
+    (hi : w.threads[i]? = some t) (hp : t.ptr = some id) (hid : id < w.heap.length) (hth : t.th = ⟨op :: rest, 0, r0⟩) :
+    ∃ r', (w.run PP casLoopP [i, i]).threads = w.threads.set i { t with th := ⟨rest, 0, r'⟩ } := by
+  obtain ⟨h1, h2, h3⟩ := flag_step_world PP casLoopP w i t id hi hp hid
+  have e1 : t.th.step casLoopP (w.heap[id]?.getD 0) =
+      (w.heap[id]?.getD 0, ⟨op :: rest, 1, w.heap[id]?.getD 0⟩, none) := by
+    rw [hth]; simp [Thread.step, casLoopP, Thread.next]
+  rw [e1] at h1 h2
+  have hi1 : (w.step PP casLoopP i).threads[i]? = some { t with th := ⟨op :: rest, 1, w.heap[id]?.getD 0⟩ } := by
+    rw [h1]; exact set_getElem?' _ _ _ _ hi
+  obtain ⟨g1, _, _⟩ := flag_step_world PP casLoopP (w.step PP casLoopP i) i _ id hi1 hp (by rw [h3]; exact hid)
+  refine ⟨w.heap[id]?.getD 0, ?_⟩
+  simp only [World.run]
+  rw [g1, h2, h1]
+  simp [Thread.step, casLoopP]
+
+/-- a thread inside a call (control state reachable for the CAS loop), scheduled alone, completes it within three steps -/
+theorem solo_op (PP : List PtrAtom) (w : World) (i : Nat) (t : HThread) (id : Nat) (op : Op) (rest : List Op) (pc : Nat)
+    (r0 : Word) (hi : w.threads[i]? = some t) (hp : t.ptr = some id) (hid : id < w.heap.length)
+    (hth : t.th = ⟨op :: rest, pc, r0⟩) (hpc : pc ≤ 1) :
+    ∃ s r', (w.run PP casLoopP s).threads = w.threads.set i { t with th := ⟨rest, 0, r'⟩ } := by
+  match pc, hpc with
+  | 0, _ =>
+    obtain ⟨r', h⟩ := solo_op0 PP w i t id op rest r0 hi hp hid hth
+    exact ⟨[i, i], r', h⟩
+  | 1, _ =>
+    obtain ⟨h1, h2, h3⟩ := flag_step_world PP casLoopP w i t id hi hp hid
+    generalize w.heap[id]?.getD 0 = x at h1 h2
+    by_cases hw : x = r0
+    · refine ⟨[i], r0, ?_⟩
+      simp only [World.run]
+      rw [h1, hth]
+      simp [Thread.step, casLoopP, hw]
+    · have e1 : t.th.step casLoopP x = (x, ⟨op :: rest, 0, r0⟩, none) := by
+        rw [hth]; simp [Thread.step, casLoopP, Thread.next, hw]
+      rw [e1] at h1
+      have hi1 : (w.step PP casLoopP i).threads[i]? = some { t with th := ⟨op :: rest, 0, r0⟩ } := by
+        rw [h1]; exact set_getElem?' _ _ _ _ hi
+      obtain ⟨r', h⟩ := solo_op0 PP (w.step PP casLoopP i) i _ id op rest r0 hi1 hp (by rw [h3]; exact hid) rfl
+      refine ⟨[i] ++ [i, i], r', ?_⟩
+      rw [world_run_append]
+      simp only [World.run] at h ⊢
+      rw [h, h1]
+      simp
+
+theorem todo_pos (l : List HThread) (h : 0 < todo l) : ∃ (i : Nat) (t : HThread), l[i]? = some t ∧ 0 < t.cost := by
+  induction l with
+  | nil => simp [todo] at h
+  | cons x r ih =>
+    by_cases hx : 0 < x.cost
+    · exact ⟨0, x, rfl, hx⟩
+    · have : 0 < todo r := by
+        simp only [todo] at h
+        simp only [HThread.cost] at hx
+        omega
+      obtain ⟨i, t, hi, ht⟩ := ih this
+      exact ⟨i + 1, t, by simpa using hi, ht⟩
+
+/-- **from every reachable world some schedule runs every thread to completion** (pointer program without a blind
+`Store` that ends with `LoadOrStore`; CAS-loop shape of Set/Clear) -/
+theorem exists_complete_world (PP : List PtrAtom) (hs : SafePP PP = true) (ht : TermPP PP = true) (n : Nat) :
+    ∀ (w : World), WInv w → (∀ t ∈ w.threads, t.th.pc ≤ 1) → (∀ t ∈ w.threads, t.ptr = none → t.ppc < PP.length) →
+      todo w.threads = n → ∃ s, (w.run PP casLoopP s).done = true := by
+  induction n with
+  | zero => intro w _ _ _ h0; exact ⟨[], todo_zero_done w h0⟩
+  | succ n ih =>
+    intro w hw hpc hppc hn
+    obtain ⟨i, t, hi, hcost⟩ := todo_pos w.threads (by omega)
+    have hmem : t ∈ w.threads := List.mem_of_getElem? hi
+    -- the new world after a solo run that replaced thread `i` by `t'`
+    have finish : ∀ (s : List Nat) (t' : HThread), (w.run PP casLoopP s).threads = w.threads.set i t' →
+        t'.cost + 1 = t.cost → t'.th.pc ≤ 1 → (t'.ptr = none → t'.ppc < PP.length) →
+        ∃ s', (w.run PP casLoopP s').done = true := by
+      intro s t' hthr hc hpc' hppc'
+      have hw' := winv_run PP casLoopP hs w hw s
+      have hmem' : ∀ u ∈ (w.run PP casLoopP s).threads, u ∈ w.threads ∨ u = t' := by
+        intro u hu; rw [hthr] at hu; exact List.mem_or_eq_of_mem_set hu
+      obtain ⟨s2, h2⟩ := ih (w.run PP casLoopP s) hw'
+        (by intro u hu; rcases hmem' u hu with h | h
+            · exact hpc u h
+            · subst h; exact hpc')
+        (by intro u hu; rcases hmem' u hu with h | h
+            · exact hppc u h
+            · subst h; exact hppc')
+        (by rw [hthr]; have := todo_set w.threads i t t' hi; omega)
+      exact ⟨s ++ s2, by rw [world_run_append]; exact h2⟩
+    cases hp : t.ptr with
+    | none =>
+      obtain ⟨k, t', hk, hsome, hth⟩ := solo_ptr PP casLoopP hs ht _ w i t hi hp (hppc t hmem hp) rfl
+      apply finish (List.replicate k i) t' hk
+      · simp only [HThread.cost, hsome, hp, hth]; simp; omega
+      · rw [hth]; exact hpc t hmem
+      · intro h; rw [h] at hsome; cases hsome
+    | some id =>
+      have hid : id < w.heap.length := hw.bound _ _ (hw.ptr t hmem id hp)
+      cases hth : t.th with
+      | mk ops pc r0 =>
+      cases ops with
+      | nil => simp [HThread.cost, hp, hth] at hcost
+      | cons op rest =>
+        have hpc1 : pc ≤ 1 := by have := hpc t hmem; rw [hth] at this; exact this
+        obtain ⟨s, r', hsr⟩ := solo_op PP w i t id op rest pc r0 hi hp hid hth hpc1
+        apply finish s _ hsr
+        · simp [HThread.cost, hp, hth]
+        · simp
+        · intro h; simp [hp] at h
+
+theorem genPP_term : TermPP genPP = true := by decide
+
+theorem init_reachable (reg : Reg) (heap : List Word) (specs : List (Addr × List Op)) :
+    (∀ t ∈ (World.init reg heap specs).threads, t.th.pc ≤ 1) ∧
+    (∀ t ∈ (World.init reg heap specs).threads, t.ptr = none → t.ppc < genPP.length) := by
+  constructor <;>
+  · intro t ht
+    simp only [World.init, List.mem_map] at ht
+    obtain ⟨sp, _, rfl⟩ := ht
+    simp [HThread.init, Thread.init]
+    try decide
 
 end MosnVerif.Model.HealthRegistry
